@@ -1122,6 +1122,10 @@ func (r *Run) doAck(s *Step, a *Action) {
 		pk := &refmqtt.Packet{Type: t, PacketID: a.PID, ReasonCode: a.Reason}
 		s.Peer, s.Sent = p.ID, pk
 		r.send(p, pk, refmqtt.Style{OmitReasonCode: a.ShortForm, OmitPropLen: a.ShortForm})
+		if a.ThenDrop {
+			p.ClosedByHarness = true
+			p.Link.Drop()
+		}
 		return
 	}
 	if len(p.In) == 0 {
@@ -1136,6 +1140,10 @@ func (r *Run) doAck(s *Step, a *Action) {
 	}
 	s.Peer, s.Sent, s.Tag = p.ID, pk, m.Tag
 	r.send(p, pk, refmqtt.Style{OmitReasonCode: a.ShortForm, OmitPropLen: a.ShortForm})
+	if a.ThenDrop { // the broker reads and processes the acknowledgement; what it answers (PUBREL) can no longer be written
+		p.ClosedByHarness = true
+		p.Link.Drop()
+	}
 }
 
 // ackFor builds the next acknowledgement in the flow of an inbound message and advances its stage.
@@ -1405,7 +1413,11 @@ func (a Action) String() string {
 		}
 		return s
 	case "ack", "pubrel":
-		return fmt.Sprintf("%s %s #%d reason=0x%02X %s pid=%d", a.Kind, a.ClientIDStr(), a.Index, a.Reason, a.AckType, a.PID)
+		td := ""
+		if a.ThenDrop {
+			td = " then-drop"
+		}
+		return fmt.Sprintf("%s %s #%d reason=0x%02X %s pid=%d%s", a.Kind, a.ClientIDStr(), a.Index, a.Reason, a.AckType, a.PID, td)
 	case "disconnect":
 		s := fmt.Sprintf("disconnect %s reason=0x%02X", a.ClientIDStr(), a.Reason)
 		if a.DiscExpiry != nil {
